@@ -1,10 +1,11 @@
 import OrsoVerif.Model.PyVal
 import OrsoVerif.Model.Sanitise
+import OrsoVerif.Model.SanitiseEvent
 /-! Driver glue for C20: decode JSON trees, the digest table and the parse table, run the
 sanitiser model, encode the text.
 
 Wire form of a JSON value: `N` null, `T`/`F`, text `S…`, number `L2 "n" <str(value)>`,
-array `L2 "a" <str(value)>`, object `M…`.  The digest `h` and the parser `parse` are the
+array `L2 "a" L<n> …`, object `M…`.  The digest `h` and the parser `parse` are the
 model's parameters; they arrive as finite tables computed by the running code
 (`hash_it(str(value))`, `json.loads`), and a lookup that misses is `bad-op`, never a default. -/
 namespace Drv.C20
@@ -19,11 +20,17 @@ def toJson : PyVal → Option Json
   | .list xs =>
     match xs with
     | [.str "n", .str t] => some (.num t.toList)
-    | [.str "a", .str t] => some (.arr t.toList)
+    | [.str "a", .list items] => (toJsonL items).map .arr
     | _ => none
   | .int _ => none
   | .float _ => none
   | .bytes _ => none
+def toJsonL : List PyVal → Option (List Json)
+  | [] => some []
+  | v :: rest =>
+    match toJson v, toJsonL rest with
+    | some j, some r => some (j :: r)
+    | _, _ => none
 def toJsonD : List (String × PyVal) → Option (List (Str × Json))
   | [] => some []
   | (k, v) :: rest =>
@@ -74,6 +81,21 @@ def candidates : List Str → List Str
   | [] => []
   | p :: ps => joinWith '|' (p :: ps) :: candidates ps
 
+def decodeTexts : List (String × PyVal) → Option (List (Str × Str))
+  | [] => some []
+  | (k, .str v) :: rest => (decodeTexts rest).map fun r => (k.toList, v.toList) :: r
+  | _ => none
+
+/-- `structured_log` before the message is stored, after `fix_dict`. -/
+def decodeBase : List (String × PyVal) → Option (List (Str × GVal))
+  | [] => some []
+  | (k, .str v) :: rest => (decodeBase rest).map fun r => (k.toList, GVal.text v.toList) :: r
+  | (k, .dict kvs) :: rest =>
+    match decodeTexts kvs, decodeBase rest with
+    | some d, some r => some ((k.toList, GVal.dict d) :: r)
+    | _, _ => none
+  | _ => none
+
 def encodePairs (kvs : List (Str × Str)) : PyVal :=
   .list (kvs.map fun (k, v) => .list [ofStr k, ofStr v])
 
@@ -106,6 +128,13 @@ def handle (op : String) (args : List PyVal) : Option (List PyVal) :=
     let parse := fun c => ((pt.find? fun (x, _) => x == c).map (·.2)).getD none
     let h := fun v => (lookupDigest t v).getD []
     pure [ofStr (format h can parse rec')]
+  | "event", [.dict base, .dict kvs, .list digests] => do
+    let b ← decodeBase base
+    let d ← toJsonD kvs
+    let t ← decodeDigests digests
+    if !coveredObj t d then none
+    let h := fun v => (lookupDigest t v).getD []
+    pure [ofStr (writeEvent h b d)]
   | "url", [.str s] =>
     let t := s.toList
     some [ofStr (if isInfix Gen.Sanitise.urlGuard t then redactUrl t else t)]
